@@ -341,7 +341,8 @@ pub fn c14_read(ctx: &Ctx) -> Outcome {
                             }
                         }
                         let imgs = images(e, nbits, seed, thorough);
-                        let sel: Vec<usize> = if thorough { vec![1, 0, 3] } else { vec![1] };
+                        // valid codewords, and long zero runs (unary values of several words)
+                        let sel: Vec<usize> = if thorough { vec![1, 2, 0, 3] } else { vec![1, 2] };
                         for ii in sel {
                             let img = &imgs[ii];
                             let model = RdModel { bits: Bits::from_bytes(&img.bytes, e), e, zx: backend == "memzx", limit: nbits + 64, tables_ok: diag };
